@@ -32,6 +32,20 @@ fn pick_len(rng: &mut Rng) -> usize {
 }
 
 /// Build a conversation of n commands with text/data lengths `lens` (payload = header + that).
+/// Text of a query/prepare/init command with a payload of `len` bytes: position-dependent unique
+/// printable bytes; a payload of exactly one byte is the command byte alone (empty text), and now
+/// and then the text is blank (whitespace only), which a server must not treat differently.
+fn text_for(seed: u64, i: u64, len: usize, sel: &mut Rng) -> Vec<u8> {
+    let mut body = Vec::new();
+    let tl = len.saturating_sub(1);
+    if tl <= 8 && sel.chance(1, 3) {
+        body = (0..tl).map(|k| [b' ', b'\t', b'\n', b'\r', 0x0c][(seed as usize + i as usize + k) % 5]).collect();
+    } else {
+        stream_fill(&mut body, seed, i, tl, true);
+    }
+    body
+}
+
 fn build(seed: u64, lens: &[usize], kinds_sel: &mut Rng) -> (Vec<Cmd>, Vec<Script>, Vec<Sent>) {
     let mut cmds = Vec::new();
     let mut scripts = Vec::new();
@@ -45,23 +59,20 @@ fn build(seed: u64, lens: &[usize], kinds_sel: &mut Rng) -> (Vec<Cmd>, Vec<Scrip
         match k {
             0 | 1 => {
                 // the COM_QUERY payload is 1 + len bytes; len counts payload bytes, so text = len-1
-                let tl = len.saturating_sub(1).max(1);
-                stream_fill(&mut body, seed, i as u64, tl, true);
+                body = text_for(seed, i as u64, len, kinds_sel);
                 cmds.push(Cmd::query(&body));
                 scripts.push(Script::Q(QProg::completed(i as u64, 0)));
                 sent.push(Sent::Query(body));
             }
             2 => {
-                let tl = len.saturating_sub(1).max(1);
-                stream_fill(&mut body, seed, i as u64, tl, true);
+                body = text_for(seed, i as u64, len, kinds_sel);
                 cmds.push(Cmd::prepare(&body));
                 scripts.push(Script::PrepOk { id: 1, params: vec![pcol.clone()], cols: vec![] });
                 prepared = true;
                 sent.push(Sent::Prepare(body));
             }
             3 => {
-                let tl = len.saturating_sub(1).max(1);
-                stream_fill(&mut body, seed, i as u64, tl, true);
+                body = text_for(seed, i as u64, len, kinds_sel);
                 cmds.push(Cmd::init_db(&body));
                 scripts.push(Script::InitOk);
                 sent.push(Sent::Init(body));
